@@ -44,9 +44,16 @@ func load(dir string, fset *token.FileSet) ([]*ast.File, error) {
 	return files, nil
 }
 
+// imp, when set, is reused (it caches the packages it has type-checked; it is
+// bound to one FileSet).
+var imp types.Importer
+
 func check(fset *token.FileSet, path string, files []*ast.File) (*types.Package, *types.Info, error) {
 	var errs []string
-	conf := types.Config{Importer: importer.ForCompiler(fset, "source", nil),
+	if imp == nil {
+		imp = importer.ForCompiler(fset, "source", nil)
+	}
+	conf := types.Config{Importer: imp,
 		Error: func(err error) { errs = append(errs, err.Error()) }}
 	info := &types.Info{Selections: map[*ast.SelectorExpr]*types.Selection{}, Uses: map[*ast.Ident]types.Object{},
 		Defs: map[*ast.Ident]types.Object{}, Types: map[ast.Expr]types.TypeAndValue{}}
